@@ -10,6 +10,7 @@ import z3
 
 Z3_TIMEOUT_S = int(os.environ.get('PYVC_Z3_TIMEOUT', '20'))
 CVC5_TIMEOUT_S = int(os.environ.get('PYVC_CVC5_TIMEOUT', '40'))
+PATIENT_TIMEOUT_S = int(os.environ.get('PYVC_PATIENT_TIMEOUT', '120'))
 CVC5 = '/usr/bin/cvc5'
 
 
@@ -88,8 +89,15 @@ def check_one(text):
         if st2 == 'unsat':
             st, backend, reason = 'unsat', 'cvc5', ''
         else:
-            reason = f'z3: {reason}; cvc5: {st2} {reason2}'
-            st = 'unknown'
+            # last resort before giving up: one patient z3 run.  The budgets above are wall-clock; when every core is busy (all
+            # checks of a `vp check` at once, a thorough run next to it) an obligation that needs 3 s of CPU can miss all of them.
+            st3, secs3, reason3 = _z3_check(text, PATIENT_TIMEOUT_S, 4)
+            z3secs += secs3
+            if st3 in ('sat', 'unsat'):
+                st, reason = st3, ''
+            else:
+                reason = f'z3: {reason}; cvc5: {st2} {reason2}; z3 (patient): {reason3}'
+                st = 'unknown'
     return st, z3secs, cvsecs, backend, reason
 
 
